@@ -11,7 +11,7 @@ One op line = one (program, restatement) pair:
 The harness appends the solver parameters, the program it stated to the solver and the oracle answers of the trace
 (`T .. P .. R .. {I|S|D|Z ..} E`), see harness/c04.cpp.
 """
-import itertools, math, os
+import collections, itertools, math, os
 from fractions import Fraction
 import vlib
 from vlib import Toks, f2h, h2f
@@ -51,9 +51,10 @@ ASSUMPTIONS = [
     "rounding, the 1e-6 feasibility margins w.r.t. the caller's program and 'never converged on an infeasible/unbounded program' "
     "are numerical and only tested (python oracle)",
     "kkt_gap_bound assumes Q symmetric positive semidefinite (as a hypothesis on the bilinear form) and u >= 0; the solver does not check convexity",
-    "correspondence tolerances: RTOL 1e-9 plus an absolute floor 1e-13 x (magnitude of the summed terms, computed from n,p,m and the "
-    "inf-norms of x,u,v: the normalised data have entries <= 1); normalised data RTOL 1e-11 + 1e-14; decisions (stage-1/2 "
-    "acceptance, epsilon0 test, feasibility flag, status) are compared only when their margin exceeds that floor",
+    "correspondence tolerances: values RTOL 1e-9 plus an absolute floor 1e-13 x (magnitude of the summed terms, computed from n,p,m and "
+    "the inf-norms of x,u,v: the normalised data have entries <= 1); normalised data RTOL 1e-11 + 1e-14; decisions (stage-1/2 "
+    "acceptance, epsilon0 test, feasibility flag, status) are compared only when their margin exceeds 64 ulp x that magnitude "
+    "(the evidence of a run counts compared/skipped decisions: see CMP_STATS)",
     "when program::reduce removed dependent equality rows the reduced normalised (A,b) are taken from the trace (FullPivLU is an oracle); "
     "feasibility w.r.t. the caller's equalities is then checked by the python oracle on the returned point",
     "the default x0 (make_strictly_feasible) is read back through the public API and is an input of the model",
@@ -62,7 +63,7 @@ RULE = ("KKT-constructed LPs/convex QPs with exactly representable data (n 1..12
         "many / vertex active sets incl. weakly active rows, Q = D'D rank 1..n, power-of-two magnitudes 2^-7..2^7 per block and per row, "
         "75% with a Slater direction) whose optimum is certified by an exact rational KKT check; small integer programs (n<=3, p<=2, "
         "m<=6, feasible or not, bounded or not) decided by exact rational simplex / active-set enumeration; all 540 one-variable programs "
-        "with coefficients in {-1,0,1} (thorough; a quarter in quick); every base program as stated and under 2 (quick) / all applicable "
+        "with coefficients in {-1,0,1} (thorough; half of them in quick); every base program as stated and under 2 (quick) / all applicable "
         "(thorough) of the restatements dupeq, combeq, mixeq, scaleeq, scaleineq, scaleobj, permvars, permrows; default and user x0. "
         "A case is non-trivial when the program has >= 2 variables and its certified optimal active set is non-empty and not all "
         "inequalities (KKT witness) or it has >= 2 inequalities (enumerated); distinct by op text")
@@ -70,7 +71,8 @@ FLAVOUR = {"quick": "plain", "thorough": "asan"}
 HARNESS_TIMEOUT = 3000
 
 RTOL = 1e-9
-FLOOR = 1e-13
+FLOOR = 1e-13          # absolute floor of value comparisons, times the magnitude of the summed terms
+DFLOOR = 64 * 2.0 ** -53  # a decision is compared when its margin exceeds this, times the magnitude of the summed terms
 RKINDS = ["none", "dupeq", "combeq", "mixeq", "scaleeq", "scaleineq", "scaleobj", "permvars", "permrows"]
 STATUS = {0: "max_iters", 1: "converged", 2: "failed", 3: "unfeasible", 4: "unbounded"}
 
@@ -529,8 +531,12 @@ def ninf(v):
     return max([abs(t) for t in v], default=0.0)
 
 
+CMP_STATS = collections.Counter()   # how many decisions were compared / skipped for a rounding-level margin
+
+
 def compare_why(aug, impl, model):
     """None when the model reproduces every logged number and decision; otherwise the first disagreement"""
+    CMP_STATS["ops"] += 1
     if not impl.startswith("ok "):
         return None if impl == model else "implementation did not answer ok"
     if not model.startswith("ok "):
@@ -562,7 +568,7 @@ def compare_why(aug, impl, model):
         st_i, st_m, mg = a.int(), b.int(), b.f()
         x0 = c["stated"]["x0"]
         if st_i != st_m:
-            if mg > FLOOR * (n * ninf(x0) + 1):
+            if mg > DFLOOR * (n * ninf(x0) + 1):
                 return f"start decision: impl {st_i} model {st_m} margin {mg:.3e}"
             return None
     k = 0            # index into recs
@@ -573,7 +579,10 @@ def compare_why(aug, impl, model):
             return f"record {ta} vs {tb}"
         if ta == "E":
             si, sm = a.int(), b.int()
-            if si != sm and not uncertain:
+            CMP_STATS["final-status"] += 1
+            if uncertain:
+                CMP_STATS["final-status-skipped"] += 1
+            elif si != sm:
                 return f"final status impl {STATUS.get(si)} model {STATUS.get(sm)}"
             return None
         if ta == "U":
@@ -591,6 +600,7 @@ def compare_why(aug, impl, model):
         if ta == "I":
             _, x, u, v = rec
             cur = (x, u, v)
+            uncertain = False     # every iteration is re-seeded from the logged (x, u, v)
             nx, nu, nv = ninf(x), ninf(u), ninf(v)
             sx = n * nx + 1
             if a.int() != b.int():
@@ -611,8 +621,9 @@ def compare_why(aug, impl, model):
             s1_i = a.f()
             smax = b.f(); s1_m = b.of(); mg1 = b.f(); s2_m = b.of(); mg2 = b.f(); kind_m = b.int(); mgk = b.f()
             sx = n * (ninf(x) + abs(s1_i) * ninf(dx)) + 1
-            if mg1 <= FLOOR * sx:
-                uncertain = True
+            CMP_STATS["stage1"] += 1
+            if mg1 <= DFLOOR * sx:
+                uncertain = True; CMP_STATS["stage1-skipped"] += 1
             elif s1_m is None or not near(s1_i, s1_m, 1e-12, 0):
                 return f"stage 1: impl s = {s1_i!r}, model {s1_m!r} (smax {smax!r}, margin {mg1:.3e})"
             # what the implementation did next
@@ -621,8 +632,9 @@ def compare_why(aug, impl, model):
             if nxt is not None:
                 moved = nxt[1] != x or nxt[2] != u or nxt[3] != v
             res_scale = math.sqrt(n + p + m) * (sx + p * ninf(v) + m * ninf(u) + ninf(u) * sx * 2)
-            if mg2 <= 10 * FLOOR * res_scale or uncertain:
-                uncertain = True
+            CMP_STATS["stage2"] += 1
+            if mg2 <= DFLOOR * res_scale or uncertain:
+                uncertain = True; CMP_STATS["stage2-skipped"] += 1
                 continue
             if nxt is None:
                 # loop left without a record: failed (non-finite) or max_iters; decided at E
@@ -635,9 +647,10 @@ def compare_why(aug, impl, model):
                         if not near(wi + s2_m * di, wni, 1e-12, 1e-300):
                             return f"stage 2: next {nm} is not {nm} + s2 d{nm} with the model's s2 = {s2_m!r}"
                 kind_i = 0 if nxt[0] == "I" else 1
-                tol = RTOL * par["epsilon0"] + 100 * FLOOR * res_scale
+                tol = RTOL * par["epsilon0"] + DFLOOR * res_scale
+                CMP_STATS["eps0"] += 1
                 if mgk <= tol:
-                    uncertain = True
+                    uncertain = True; CMP_STATS["eps0-skipped"] += 1
                 elif kind_i != kind_m:
                     return f"epsilon0 test: impl {'stops' if kind_i else 'continues'}, model kind {kind_m} (margin {mgk:.3e})"
         elif ta == "D":
@@ -646,10 +659,12 @@ def compare_why(aug, impl, model):
             sx = n * nx + 1
             feas_i = a.int(); eta_i = a.f(); rd_i = a.f(); rp_i = a.f(); fx_i = a.f()
             feas_m = b.int(); mgf = b.f(); eta_m = b.f(); rd_m = b.f(); rp_m = b.f(); fx_m = b.f(); st_m = b.int(); mgs = b.f()
+            CMP_STATS["done"] += 1
             if uncertain:
+                CMP_STATS["done-skipped"] += 1
                 continue
-            if mgf <= 10 * FLOOR * math.sqrt(p + 1) * sx:
-                uncertain = True
+            if mgf <= DFLOOR * math.sqrt(p + 1) * sx:
+                uncertain = True; CMP_STATS["done-skipped"] += 1
                 continue
             if feas_i != feas_m:
                 return f"feasible flag impl {feas_i} model {feas_m} (margin {mgf:.3e})"
@@ -661,8 +676,8 @@ def compare_why(aug, impl, model):
                 return "|rprim| at done"
             if not near(fx_i, fx_m, RTOL, FLOOR * (abs(mufx_i) * (n * n * nx * nx + n * nx) + 1e-300)):
                 return "fx at done"
-            if mgs <= 10 * FLOOR * math.sqrt(n + p + 1) * (sx + p * nv + m * nu + m * nu * sx):
-                uncertain = True
+            if mgs <= DFLOOR * math.sqrt(n + p + 1) * (sx + p * nv + m * nu + m * nu * sx):
+                uncertain = True; CMP_STATS["status-skipped"] += 1
         elif ta == "Z":
             _, x, v = rec
             nx, nv = ninf(x), ninf(v)
@@ -677,7 +692,7 @@ def compare_why(aug, impl, model):
                 return "noineq: rdual"
             if not vnear(rp_i, rp_m, RTOL, FLOOR * sx):
                 return "noineq: rprim"
-            if mga <= 100 * FLOOR * math.sqrt(n + p) * (sx + p * nv):
+            if mga <= DFLOOR * math.sqrt(n + p) * (sx + p * nv):
                 uncertain = True
             elif ap_i != ap_m:
                 return f"noineq: isApprox impl {ap_i} model {ap_m} (margin {mga:.3e})"
@@ -929,17 +944,17 @@ def gen(rng, tier):
     quick = tier != "thorough"
     count = 2 if quick else None
     for case in exhaustive_1d():
-        if quick and not rng.chance(0.25):
+        if quick and not rng.chance(0.5):
             continue
         case["rkind"], case["ri"], case["rf"] = "none", [], []
         ops.append(fmt(case))
         if not quick or rng.chance(0.1):
             ops += with_restatements(rng, case, 1 if quick else None)[1:]
-    for _ in range(110 if quick else 700):
+    for _ in range(320 if quick else 1200):
         ops += with_restatements(rng, gen_int_case(rng), count)
-    for _ in range(40 if quick else 250):
+    for _ in range(120 if quick else 400):
         ops += with_restatements(rng, gen_kkt_case(rng, 4), count)
-    for _ in range(110 if quick else 900):
+    for _ in range(330 if quick else 1500):
         ops += with_restatements(rng, gen_kkt_case(rng, 12), count)
     return ops
 
